@@ -17,7 +17,9 @@ import (
 	"strconv"
 	"strings"
 	"sync"
+	"sync/atomic"
 	"testing"
+	"time"
 
 	"github.com/0xReLogic/Helios/internal/config"
 	"github.com/0xReLogic/Helios/internal/logging"
@@ -140,6 +142,14 @@ func TestVerifDriver(t *testing.T) {
 		res := "bad-op"
 		if len(w) == 8 && w[0] == "rw" {
 			res = exchange(client, w[1:])
+		} else if len(w) == 2 && w[0] == "rws" {
+			if heldSess != nil {
+				heldSess.srv.Close()
+				heldSess = nil
+			}
+			var sres string
+			heldSess, sres = newSess(w[1])
+			res = sres
 		} else if len(w) == 2 && w[0] == "bc" {
 			res = buildOnly(w[1])
 		}
@@ -147,12 +157,27 @@ func TestVerifDriver(t *testing.T) {
 	}
 }
 
-func exchange(client *http.Client, w []string) string {
-	pc, err := parseChain(w[0])
+// rwSess: one built chain (one instance of every middleware in it) behind a real server. `rw <chain> …`
+// uses a fresh one per exchange; `rws <chain>` builds one that the following `rw @ …` exchanges share,
+// so that state a middleware keeps between exchanges (pools, caches) is exercised.
+type rwSess struct {
+	h    http.Handler
+	ops  atomic.Value // []string: the script of the current exchange
+	srv  *httptest.Server
+	mu   sync.Mutex
+	done chan struct{}
+	once *sync.Once
+}
+
+var heldSess *rwSess
+
+func newSess(spec string) (*rwSess, string) {
+	pc, err := parseChain(spec)
 	if err != nil {
-		return "bad-op"
+		return nil, "bad-op"
 	}
-	ops := strings.Split(w[6], ";")
+	s := &rwSess{}
+	s.ops.Store([]string{})
 	inner := http.HandlerFunc(func(rw http.ResponseWriter, r *http.Request) {
 		addTrace("in")
 		n, rerr := io.Copy(io.Discard, r.Body)
@@ -164,7 +189,7 @@ func exchange(client *http.Client, w []string) string {
 		if v := r.Header.Get("X-V-From"); v != "" {
 			rw.Header().Set("X-V-Saw", v)
 		}
-		for _, op := range ops {
+		for _, op := range s.ops.Load().([]string) {
 			f := strings.Split(op, ":")
 			switch f[0] {
 			case "sh":
@@ -176,26 +201,61 @@ func exchange(client *http.Client, w []string) string {
 				rw.WriteHeader(c)
 			case "w":
 				n, _ := strconv.Atoi(f[1])
-				s, _ := strconv.Atoi(f[2])
-				_, _ = rw.Write(chunkBytes(n, s))
+				sd, _ := strconv.Atoi(f[2])
+				_, _ = rw.Write(chunkBytes(n, sd))
 			case "fl":
 				if fl, ok := rw.(http.Flusher); ok {
 					fl.Flush()
 				}
+			case "ab":
+				// the exchange is cut short the way ReverseProxy does when a backend dies mid-body
+				panic(http.ErrAbortHandler)
 			}
 		}
 	})
 	h, err := BuildChain(pc, inner)
 	if err != nil {
-		return "builderr"
+		return nil, "builderr"
 	}
-	done := make(chan struct{})
-	var once sync.Once
-	srv := httptest.NewServer(http.HandlerFunc(func(rw http.ResponseWriter, r *http.Request) {
-		defer once.Do(func() { close(done) })
-		h.ServeHTTP(rw, r)
+	s.h = h
+	s.srv = httptest.NewServer(http.HandlerFunc(func(rw http.ResponseWriter, r *http.Request) {
+		s.mu.Lock()
+		d, o := s.done, s.once
+		s.mu.Unlock()
+		defer o.Do(func() { close(d) })
+		s.h.ServeHTTP(rw, r)
 	}))
-	defer srv.Close()
+	return s, "ok"
+}
+
+func exchange(client *http.Client, w []string) string {
+	var s *rwSess
+	if w[0] == "@" {
+		if heldSess == nil {
+			return "bad-op"
+		}
+		s = heldSess
+	} else {
+		var res string
+		s, res = newSess(w[0])
+		if s == nil {
+			return res
+		}
+		defer s.srv.Close()
+	}
+	ops := strings.Split(w[6], ";")
+	s.ops.Store(ops)
+	done := make(chan struct{})
+	s.mu.Lock()
+	s.done, s.once = done, new(sync.Once)
+	s.mu.Unlock()
+	srv := s.srv
+	aborts := false
+	for _, op := range ops {
+		if op == "ab" {
+			aborts = true
+		}
+	}
 	traceMu.Lock()
 	trace = nil
 	traceMu.Unlock()
@@ -218,6 +278,18 @@ func exchange(client *http.Client, w []string) string {
 		req.Header.Set("X-API-Key", k)
 	}
 	resp, err := client.Do(req)
+	if aborts {
+		// what the client sees of a cut exchange is not compared; what matters is the next one
+		if err == nil {
+			_, _ = io.Copy(io.Discard, resp.Body)
+			resp.Body.Close()
+		}
+		select {
+		case <-done:
+		case <-time.After(5 * time.Second):
+		}
+		return "aborted"
+	}
 	if err != nil {
 		return "clienterr " + strings.ReplaceAll(err.Error(), " ", "_")
 	}
